@@ -381,6 +381,8 @@ class MediaSegmentList(HTMLHandlerBase):
     decorators = [uses_media_file, uses_stream]
 
     def get(self, spk: int, mfid: int) -> flask.Response:
+        if current_media_file.representation is None:
+            return flask.make_response('Media file needs indexing', 404)
         context = self.create_context()
         start = 0
         segments = []
@@ -525,7 +527,12 @@ class MediaSegmentInfo(SegmentInfoBase):
     decorators = [uses_media_file, uses_stream]
 
     def get(self, spk: int, mfid: int, segnum: int) -> flask.Response:
-        frag = current_media_file.representation.segments[int(segnum)]
+        rep = current_media_file.representation
+        if rep is None:
+            return flask.make_response('Media file needs indexing', 404)
+        if int(segnum) >= len(rep.segments):
+            return flask.make_response('Segment not found', 404)
+        frag = rep.segments[int(segnum)]
         options = mp4.Options(lazy_load=False)
         if current_media_file.representation.encrypted:
             options.iv_size = current_media_file.representation.iv_size
